@@ -53,7 +53,7 @@ def _run_main6(ctx):
                 ctx.site('heartbeats::Heartbeat::start'), built=[x.value_str() for x in rows])
         # the timer is polled under the HEARTBEAT token in both phases
         regs = [x for x in panics.registrations(ctx) if x[2] == 'io_loop::HEARTBEAT']
-        r.check('timer-registered', len(regs) == 1 and regs[0][4] == 'heartbeats.timer', None, built=[(x[0], x[4]) for x in regs])
+        r.check('timer-registered', len(regs) == 1 and regs[0][5] == 'mio_extras::timer::Timer<io_loop::heartbeat_timers::HeartbeatKind>', None, built=[(x[0], x[5]) for x in regs])
         for hp in ('io_loop::IoLoop::handle_steady_event', 'io_loop::IoLoop::handle_handshake_event'):
             rows = P.table(ctx, hp)
             hb = [x for x in rows if x.conds and x.conds[0][1] == 'io_loop::HEARTBEAT']
